@@ -12,10 +12,12 @@ import (
 	"testing"
 	"time"
 
+	"github.com/ipfs/go-cid"
 	"github.com/ipni/go-libipni/announce/message"
 	"github.com/ipni/go-libipni/dagsync"
 	"github.com/ipni/go-libipni/verifshim/vsched"
 	pubsub "github.com/libp2p/go-libp2p-pubsub"
+	"github.com/libp2p/go-libp2p/core/peer"
 
 	"verifharness/sched"
 	"verifharness/schedfx"
@@ -141,8 +143,27 @@ func explicitVsClose(nClose int) *sched.Scenario { return explicitVsCloseSeg(nCl
 // explicitVsCloseSeg: with seg > 0 the explicit sync is a segmented one (the
 // traversal is cut into segments of seg advertisements, the block hook naming
 // the start of the next): letting a running sync finish means all segments.
+// K15: K1 on a subscriber that learns the publisher's latest-synced
+// advertisement from the application (WithLastKnownSync; the callback is a
+// scheduling point, as a datastore lookup would be, and nothing was recorded
+// by the subscriber itself): the sync that got going still stops where the
+// application said, and no goroutine of the subscriber is left in the callback.
+func explicitVsCloseLastKnown() *sched.Scenario {
+	lastKnownCallback = true
+	sc := explicitVsCloseSeg(1, 0)
+	lastKnownCallback = false
+	return sc
+}
+
+// lastKnownCallback is read when a scenario is built.
+var lastKnownCallback bool
+
 func explicitVsCloseSeg(nClose int, seg int64) *sched.Scenario {
 	name := fmt.Sprintf("K1-explicit-sync-vs-%dclose", nClose)
+	withLastKnown := lastKnownCallback
+	if withLastKnown {
+		name = "K15-explicit-sync-with-last-known-sync-callback-vs-close"
+	}
 	var so []dagsync.Option
 	if seg > 0 {
 		name = fmt.Sprintf("K11-segmented(%d)-explicit-sync-vs-%dclose", seg, nClose)
@@ -150,8 +171,18 @@ func explicitVsCloseSeg(nClose int, seg int64) *sched.Scenario {
 	}
 	return &sched.Scenario{Name: name,
 		Setup: func(e *sched.Exec) ([]sched.Thread, func()) {
-			w := schedfx.New(e, schedfx.Options{Pubs: 1, ChainLen: 3, Announce: true, SubOpts: so})
+			opts := schedfx.Options{Pubs: 1, ChainLen: 3, Announce: true, SubOpts: so}
+			var oldest cid.Cid
+			if withLastKnown {
+				opts.NoLatest = true
+				opts.SubOpts = append(append([]dagsync.Option{}, so...), dagsync.WithLastKnownSync(func(peer.ID) (cid.Cid, bool) {
+					vsched.Point("last-known-sync lookup")
+					return oldest, oldest.Defined()
+				}))
+			}
+			w := schedfx.New(e, opts)
 			p, ch := w.Pubs[0], w.Chains[0]
+			oldest = ch.Cids[0]
 			p.Publisher.SetRoot(ch.Cids[2])
 			ths := []sched.Thread{{Name: "E", Fn: func() {
 				e.Log("E call SyncAdChain")
@@ -691,7 +722,7 @@ func postClose(call string) *sched.Scenario {
 
 func TestCheck(t *testing.T) {
 	r := vp.New("C15", "model_checking",
-		"scenarios on the real subscriber built with the instrumentation overlay (gated in-memory publisher, chain of 2-3 signed ads): K1 explicit sync (queried head) || Close, with one and with two concurrent Close callers (a sync that reports success must have reported every block); K11 the same with a segmented sync (segment size 1); K7 explicit syncs of two publishers || Close; K12 two explicit syncs of one publisher (the second waits for its turn) || Close; K8 announce-triggered syncs of two publishers under a limit of one at a time || Close; K9 an explicit sync whose block hook makes a nested explicit sync of another publisher || Close; K2 announce-triggered sync || Close; K13 an announce-triggered sync whose block request is never answered || Close, with the plain and the retrying HTTP client and a request time-out of one hour (Close must not take that long on the bubble's clock); K10 the subscriber with a libp2p host and a real gossipsub topic, an announcement published on the topic (it reaches the subscriber through the receiver's pubsub watcher goroutine) || Close (thorough: two Close callers); K14 a direct announcement to a subscriber whose receiver republishes them on a gossipsub topic (WithResend) || Close; K6 two announcements of one publisher and Close with every block already local, the first sync held in its block hook until nothing else can move (a sync still pending when Close cancels must be abandoned); K3 listener registration and cancellation || Close; K5 each of 11 entry points called after Close has returned. All interleavings at the scheduling points (locks, atomics, channel operations, selects, spawns, requests, hook calls, observations) up to the preemption bound, so Close starts at every point of a sync. 'Blocks forever' is decided by quiescence with the caller not finished. states = distinct decision states; transitions = scheduling steps; traces = executions of the real code.",
+		"scenarios on the real subscriber built with the instrumentation overlay (gated in-memory publisher, chain of 2-3 signed ads): K1 explicit sync (queried head) || Close, with one and with two concurrent Close callers (a sync that reports success must have reported every block); K11 the same with a segmented sync (segment size 1); K15 the same on a subscriber whose latest-synced value comes from a WithLastKnownSync callback (a scheduling point); K7 explicit syncs of two publishers || Close; K12 two explicit syncs of one publisher (the second waits for its turn) || Close; K8 announce-triggered syncs of two publishers under a limit of one at a time || Close; K9 an explicit sync whose block hook makes a nested explicit sync of another publisher || Close; K2 announce-triggered sync || Close; K13 an announce-triggered sync whose block request is never answered || Close, with the plain and the retrying HTTP client and a request time-out of one hour (Close must not take that long on the bubble's clock); K10 the subscriber with a libp2p host and a real gossipsub topic, an announcement published on the topic (it reaches the subscriber through the receiver's pubsub watcher goroutine) || Close (thorough: two Close callers); K14 a direct announcement to a subscriber whose receiver republishes them on a gossipsub topic (WithResend) || Close; K6 two announcements of one publisher and Close with every block already local, the first sync held in its block hook until nothing else can move (a sync still pending when Close cancels must be abandoned); K3 listener registration and cancellation || Close; K5 each of 11 entry points called after Close has returned. All interleavings at the scheduling points (locks, atomics, channel operations, selects, spawns, requests, hook calls, observations) up to the preemption bound, so Close starts at every point of a sync. 'Blocks forever' is decided by quiescence with the caller not finished. states = distinct decision states; transitions = scheduling steps; traces = executions of the real code.",
 		"cooperative scheduling at synchronization operations; priority selects in source order; one publisher",
 		"goroutine leak = a goroutine of the bubble with a go-libipni frame after Close and cleanup",
 	)
@@ -704,7 +735,7 @@ func TestCheck(t *testing.T) {
 	if vp.Thorough() {
 		bound = 3
 	}
-	scs := []*sched.Scenario{pendingAnnounceVsClose(), twoExplicitVsClose(), limitedAnnouncesVsClose(), nestedSyncVsClose(), pubsubAnnounceVsClose(1), resendAnnounceVsClose(), explicitVsCloseSeg(1, 1), twoExplicitOfOnePublisherVsClose(), explicitVsClose(1), explicitVsClose(2), announceVsClose(), stalledAnnounceVsClose(false), stalledAnnounceVsClose(true), listenerVsClose()}
+	scs := []*sched.Scenario{pendingAnnounceVsClose(), twoExplicitVsClose(), limitedAnnouncesVsClose(), nestedSyncVsClose(), pubsubAnnounceVsClose(1), resendAnnounceVsClose(), explicitVsCloseLastKnown(), explicitVsCloseSeg(1, 1), twoExplicitOfOnePublisherVsClose(), explicitVsClose(1), explicitVsClose(2), announceVsClose(), stalledAnnounceVsClose(false), stalledAnnounceVsClose(true), listenerVsClose()}
 	if vp.Thorough() {
 		scs = append(scs, pubsubAnnounceVsClose(2))
 	}
@@ -723,7 +754,7 @@ func TestCheck(t *testing.T) {
 			// ten times the cost of the others per schedule
 			return 20
 		}
-		if i < 8 {
+		if i < 9 {
 			return 5
 		}
 		return 1
